@@ -242,6 +242,42 @@ func (g *Gen) cosmosSend(nextNonce map[string]uint64, baseFee int64) GenTx {
 	return GenTx{Bz: bz, Eth: false, From: fname, Aim: "cosmos"}
 }
 
+// BigBlock generates and delivers one block with n Ethereum txs: mostly plain transfers and logger calls from the
+// funded accounts (consecutive nonces per sender), with failing ones in between (refused: future nonce, bad signer,
+// price below floor; admitted but failed outside the VM: value above balance, gas below intrinsic; VM errors).
+func (g *Gen) BigBlock(n int) (*RecBlock, []GenTx, bool) {
+	r, c := g.R, g.W.C
+	nextNonce := map[string]uint64{}
+	baseFee := c.BaseFee().Int64()
+	var txs []GenTx
+	g.calm = true
+	for i := 0; i < n; i++ {
+		s := g.ethSpec(nextNonce, baseFee)
+		// keep the block cheap: transfers and logger calls only, modest gas limits
+		if s.To == "create" || (s.To != "c1" && s.Sel != "") || s.Gas > 300000 {
+			if s.Class == "valid" || s.Class == "gas-huge" || s.Class == "destroy-to-module" {
+				s.To, s.Sel, s.Init, s.Runtime, s.NewAddr = pick(r, "a0", "a1", "a2", "x0", "c1"), "", "none", "none", "none"
+				s.Value, s.Gas = int64(r.Intn(20)), pick(r, uint64(21000), 30000, 60000)
+				if s.To == "c1" {
+					s.Sel, s.Gas, s.Value = pick(r, "e0", "e1"), 100000, 0
+				}
+				s.Class = "valid"
+			}
+		}
+		bz, _, _, hash := g.W.BuildEth(s)
+		txs = append(txs, GenTx{Bz: bz, Eth: true, Hash: hash, From: s.FromName, Aim: s.Class, Gas: s.Gas, Type: s.Type, Price: s.Price, Tip: s.Tip})
+	}
+	g.calm = false
+	var raw [][]byte
+	var aims []string
+	for _, t := range txs {
+		raw = append(raw, t.Bz)
+		aims = append(aims, t.Aim)
+	}
+	rb, ok := g.Rec.Deliver(raw, aims)
+	return rb, txs, ok
+}
+
 // NextBlock generates and delivers one block. Returns false when the chain halted.
 func (g *Gen) NextBlock(maxTxs int) (*RecBlock, []GenTx, bool) {
 	r, c := g.R, g.W.C
